@@ -904,6 +904,7 @@ config_parse_directory(struct config *cf, struct variable_value *val)
 	    .lno	= tk->tk_lno,
 	});
 	if (path == NULL) {
+		lexer_error(cf->lx, tk->tk_lno, "%s: invalid directory", dir);
 		return CONFIG_ERROR;
 	} else if (stat(path, &st) == -1) {
 		lexer_error(cf->lx, tk->tk_lno, "%s: %s",
